@@ -94,9 +94,8 @@ theorem residual_nonneg [Field α] [LinearOrder α] [IsStrictOrderedRing α] (B 
     have h3 := mul_self_nonneg (V3.sub (B.apply s) d).z
     linarith
 
-/-- the same for a staged fit: if the destinations are the image of the pre-balanced sources under the stage's
-true map, the stage objective (evaluated on the pre-balanced swatches, as the code does) vanishes there, and
-the accumulated balance then reproduces the destinations exactly. -/
+/-- (corollary of `compose_code_eq_spec` and `compose_spec_correct`, restated for one stage.) what the code accumulates after a
+stage, applied to x, is the stage balance applied to the pre-balanced x. -/
 theorem staged_truth_reproduces [CommRing α] (prev : Bal α) (s : Stage α) (x : V3 α) :
     (composeCode prev s).apply x = s.bal.apply (prev.apply x) := by
   rw [compose_code_eq_spec, compose_spec_correct]
@@ -187,5 +186,81 @@ theorem call_is_apply_after_fit [CommRing α] (s : Stage α) (img : List (List (
   simp only [applyGrid]
   congr 1; funext row; congr 1; funext x
   rw [staged_eq_sequential]; simp [applySeq]
+
+/-! ## Round 3: converse and optimiser contract -/
+
+section contract
+variable [Field α] [LinearOrder α] [IsStrictOrderedRing α]
+
+theorem dot_self_eq_zero (r : V3 α) (h : V3.dot r r = 0) : r.x = 0 ∧ r.y = 0 ∧ r.z = 0 := by
+  simp only [V3.dot] at h
+  have h1 := mul_self_nonneg r.x
+  have h2 := mul_self_nonneg r.y
+  have h3 := mul_self_nonneg r.z
+  refine ⟨mul_self_eq_zero.mp (by linarith), mul_self_eq_zero.mp (by linarith), mul_self_eq_zero.mp (by linarith)⟩
+
+/-- CONVERSE: a balance whose least-squares objective vanishes reproduces every destination swatch exactly (so "minimiser
+of an exactly solvable fit ⇒ reproduces the destinations"). -/
+theorem residual_zero_reproduces (B : Bal α) (pairs : List (V3 α × V3 α)) (h : residual B pairs = 0) :
+    ∀ p ∈ pairs, B.apply p.1 = p.2 := by
+  induction pairs with
+  | nil => intro p hp; simp at hp
+  | cons q rest ih =>
+    obtain ⟨s, d⟩ := q
+    simp only [residual] at h
+    have hr := residual_nonneg B rest
+    have hd : 0 ≤ V3.dot (V3.sub (B.apply s) d) (V3.sub (B.apply s) d) := by
+      simp only [V3.dot]
+      have h1 := mul_self_nonneg (V3.sub (B.apply s) d).x
+      have h2 := mul_self_nonneg (V3.sub (B.apply s) d).y
+      have h3 := mul_self_nonneg (V3.sub (B.apply s) d).z
+      linarith
+    have hd0 : V3.dot (V3.sub (B.apply s) d) (V3.sub (B.apply s) d) = 0 := by linarith
+    have hrest : residual B rest = 0 := by linarith
+    intro p hp
+    rcases List.mem_cons.mp hp with rfl | hp'
+    · obtain ⟨hx, hy, hz⟩ := dot_self_eq_zero _ hd0
+      simp only [V3.sub] at hx hy hz
+      ext <;> [exact sub_eq_zero.mp hx; exact sub_eq_zero.mp hy; exact sub_eq_zero.mp hz]
+    · exact ih hrest p hp'
+
+/-- residual = 0 ⇔ every destination reproduced. -/
+theorem residual_zero_iff (B : Bal α) (pairs : List (V3 α × V3 α)) :
+    residual B pairs = 0 ↔ ∀ p ∈ pairs, B.apply p.1 = p.2 := by
+  refine ⟨residual_zero_reproduces B pairs, ?_⟩
+  intro h
+  induction pairs with
+  | nil => rfl
+  | cons q rest ih =>
+    obtain ⟨s, d⟩ := q
+    have hq := h (s, d) (by simp)
+    simp only at hq
+    simp only [residual, hq, ih (fun p hp => h p (by simp [hp])), V3.sub, V3.dot]; ring
+
+/-- CONTRACT of the optimiser, part 1: any search that returns a point whose objective is not larger than at its start
+never increases the swatch residual — for every start balance and every swatch set. What the check observes about scipy's
+Powell search is exactly the hypothesis `hopt`. -/
+theorem fit_never_increases (opt : (Bal α → α) → Bal α → Bal α) (hopt : ∀ (J : Bal α → α) (x0 : Bal α), J (opt J x0) ≤ J x0)
+    (start : Bal α) (pairs : List (V3 α × V3 α)) :
+    residual (opt (fun B => residual B pairs) start) pairs ≤ residual start pairs :=
+  hopt (fun B => residual B pairs) start
+
+/-- CONTRACT, part 2: on an exactly solvable fit (destinations = `truth` applied to the sources) ANY balance whose
+objective is not larger than the truth's reproduces the destinations exactly. -/
+theorem exact_fit_reproduces (truth B : Bal α) (src : List (V3 α))
+    (hB : residual B (src.map fun s => (s, truth.apply s)) ≤ residual truth (src.map fun s => (s, truth.apply s))) :
+    ∀ s ∈ src, B.apply s = truth.apply s := by
+  rw [residual_at_truth_zero] at hB
+  have h0 : residual B (src.map fun s => (s, truth.apply s)) = 0 := le_antisymm hB (residual_nonneg _ _)
+  intro s hs
+  exact residual_zero_reproduces B _ h0 (s, truth.apply s) (List.mem_map.mpr ⟨s, hs, rfl⟩)
+
+end contract
+
+/-- clipping (`clip = True`) keeps every corrected value in [0, 1] and leaves values already there unchanged. -/
+theorem clip01_range (x : Rat) : 0 ≤ clip01 x ∧ clip01 x ≤ 1 ∧ (0 ≤ x → x ≤ 1 → clip01 x = x) := by
+  unfold clip01
+  refine ⟨le_max_left _ _, max_le (by norm_num) (min_le_right _ _), fun h0 h1 => ?_⟩
+  rw [min_eq_left h1, max_eq_right h0]
 
 end Darsia.C12
